@@ -166,6 +166,10 @@ func gitExec(c *Ctx, op string) {
 	uf := api.MustParseFilesetUnpackFilter(fstr)
 	dst := filepath.Join(base, "dst")
 	wh := []api.WarehouseLocation{api.WarehouseLocation("file://" + repo + "/.git")}
+	if seed%2 == 1 { // the address of a non-bare repository is its working tree (what `git clone <path>` takes)
+		wh = []api.WarehouseLocation{api.WarehouseLocation("file://" + repo)}
+	}
+	c.H(fmt.Sprintf("git-addr-worktree:%v", seed%2 == 1))
 	id := api.WareID{Type: "git", Hash: target}
 	// ---- a cancellation in the middle of the tree walk: the unpack either fails or delivers the whole tree, and whatever
 	// it leaves in the fileset cache, a later unpack of the same commit (never cancelled) shows the whole tree
